@@ -119,6 +119,7 @@ def run_miri(ctx, cases, out_name, timeout):
 
 def run(ctx):
     drive = fw.build("std64", "c17")
+    c05.assume_fixed(ctx)
     totals = {"shapedrift": 0, "onesdrift": 0, "unexpected_panics": 0}
     cfg = trace_cfg(ctx)
     if ctx.replay:
